@@ -29,6 +29,23 @@ func verifEventApplied(local string, from string, ev *Event) {
 	}
 }
 
+var verifYieldFn atomic.Value // func(site string)
+
+// SetVerifYield installs a function that is called at the marked points of the subscription hooks, where a
+// verification build may hold a goroutine up to widen an interleaving.
+func SetVerifYield(f func(site string)) {
+	if f == nil {
+		f = func(string) {}
+	}
+	verifYieldFn.Store(f)
+}
+
+func verifYield(site string) {
+	if f, ok := verifYieldFn.Load().(func(string)); ok {
+		f(site)
+	}
+}
+
 // VerifFedView returns the topic filters this node believes the given peer node subscribes to, each as
 // "<share name>|<topic filter>" (the share name is empty for a non-shared subscription), so that a shared
 // subscription and a non-shared one whose filter happens to read "$share/..." can be told apart.
